@@ -277,6 +277,9 @@ type extractor func(repo string, o *Out)
 
 var extractors = map[string]extractor{}
 
+// extractorDeps: properties whose Gen file must be regenerated together with this one (shared models).
+var extractorDeps = map[string][]string{}
+
 func writeLean(dir string, o *Out) error {
 	var sb strings.Builder
 	sb.WriteString("-- GENERATED by harness/cmd/extract from /repo on every run — do not edit\n")
@@ -306,6 +309,17 @@ func main() {
 		sort.Strings(ids)
 	} else {
 		ids = strings.Split(*prop, ",")
+	}
+	for _, id := range append([]string{}, ids...) {
+		for _, d := range extractorDeps[id] {
+			dup := false
+			for _, x := range ids {
+				dup = dup || x == d
+			}
+			if !dup {
+				ids = append(ids, d)
+			}
+		}
 	}
 	rc := 0
 	for _, id := range ids {
